@@ -54,7 +54,7 @@ def h_reaction_setters(case):
     def observe(tag):
         """all three realisations of the rate law on the CURRENT system object vs the reference of the current description"""
         f, mag = ref.rate_law(desc, state, None)
-        maxrate = max([m / (abs(s_) + 1.0) for m, s_ in zip(mag, state)] + [1e-3])
+        maxrate = ref.max_rate(desc, state)
         dt = 0.02 / maxrate
         usys = gen.mild_sys(r)
         ok = True
@@ -154,7 +154,7 @@ def h_network_swap(case):
         x["prod"] = {rot[l]: c for l, c in x["prod"].items()}
     state = gen.state_of(desc)
     _, mag = ref.rate_law(desc, state, None)
-    maxrate = max([m / (abs(s_) + 1.0) for m, s_ in zip(mag, state)] + [1e-3])
+    maxrate = max(ref.max_rate(desc, state), ref.max_rate(desc2, state))      # stable for the network of either run
     dt = 0.02 / maxrate
     S, n = len(labels), gen.ncells(desc["space"])
     for kind_ in engines.KINDS:
